@@ -116,7 +116,7 @@ def run(ctx):
             for ops in itertools.product(OPS, repeat=n):
                 cases.append(chain_case(shape, ops))
     n_exh = len(cases)
-    for _ in range(ctx.scale(1500, 200000)):
+    for _ in range(ctx.scale(1500, 60000)):
         n = rng.randint(4, 5)
         cases.append(chain_case(rng.choice(list(SHAPES)), [rng.choice(OPS) for _ in range(n)]))
     # long chains: every operator repeated 6..40 times (seeded C03-2 re-balanced runs of one "associative"
